@@ -91,4 +91,35 @@ theorem atoiOpt_natToBytes (n : Nat) (hn : n ≤ 9223372036854775807) : atoiOpt 
 theorem wrap64_id (i : Int) (h1 : -9223372036854775808 ≤ i) (h2 : i ≤ 9223372036854775807) : wrap64 i = i := by
   unfold wrap64; omega
 
+theorem atoiOpt_neg (n : Nat) (h0 : 0 < n) (hn : n ≤ 9223372036854775808) :
+    atoiOpt (0x2d :: natToBytes n) = some (-(n : Int)) := by
+  obtain ⟨h1, h2, h3⟩ := natToBytes_spec n
+  unfold atoiOpt
+  have e1 : ((0x2d : UInt8) == 0x2d || (0x2d : UInt8) == 0x2b) = true := by decide
+  have e2 : (natToBytes n).isEmpty = false := by cases h : natToBytes n <;> simp_all
+  have hall : (natToBytes n).all (fun b => 48 ≤ b && b ≤ 57) = true := h1
+  simp only [e1, if_true, e2, hall, Bool.not_true, Bool.or_self, Bool.false_eq_true, if_false]
+  have hv : (natToBytes n).foldl (fun acc d => acc * 10 + ((d.toNat - 48 : Nat) : Int)) 0 = (n : Int) := h3
+  rw [hv]
+  have e3 : ((0x2d : UInt8) == 0x2d) = true := by decide
+  have : ¬ ((n : Int) > 9223372036854775808) := by omega
+  simp [e3, this]
+
+/-- **Atoi ∘ Itoa = id** on the whole int64 range -/
+theorem atoiOpt_intToBytes (i : Int) (h1 : -9223372036854775808 ≤ i) (h2 : i ≤ 9223372036854775807) :
+    atoiOpt (intToBytes i) = some i := by
+  unfold intToBytes
+  by_cases hneg : i < 0
+  · simp only [hneg, if_true]
+    have := atoiOpt_neg i.natAbs (by omega) (by omega)
+    rw [this]
+    congr 1
+    omega
+  · simp only [hneg, if_false]
+    have := atoiOpt_natToBytes i.toNat (by omega)
+    rw [this]
+    congr 1
+    omega
+
+
 end Coraza.Engine
